@@ -342,3 +342,74 @@ func runWalkRace(rcx *RunCtx, k int) {
 	})
 	finishRun(rcx)
 }
+
+// Deep fence: the backend lets a non-empty directory be unlinked or
+// overwritten (a backend is free to).  Fids on the entry and one, two and
+// three levels below it are fenced: a walk to a child fails with ENOENT and a
+// creation inside fails with EINVAL, neither reaching the backend.
+func deepFenceCount() int { return 4 }
+
+func runDeepFence(rcx *RunCtx, k int) {
+	cfg := simCfg(rcx)
+	overwrite := k%2 == 1
+	cross := k/2 == 1
+	rcx.Label = fmt.Sprintf("deep-fence overwrite=%v cross=%v", overwrite, cross)
+	rcx.Sample = map[string]interface{}{"scenario": "fids 0-3 levels below a removed non-empty directory", "removed_by_rename_over_it": overwrite, "removal_on_other_connection": cross}
+	find := func(oracle, key, format string, args ...interface{}) {
+		rcx.Find("C08", oracle, key, format, args...)
+	}
+	rcx.Res = simrt.Run(cfg, rcx.Sched, func() {
+		fs := simfs.New()
+		fs.RecursiveRemove = true
+		fs.WalkGetAttrENOSYS = rcx.Plan.Choose(2) == 1
+		fs.MkPath("/x/y/z/w/")
+		fs.MkPath("/other/")
+		w := NewWorld(nil, fs)
+		ca := w.Connect()
+		cb := ca
+		if cross {
+			cb = w.Connect()
+		}
+		ok := ca.Start(8192, "9P2000.L.Google.7")
+		if cross {
+			ok = ok && cb.Start(8192, "9P2000.L.Google.7")
+		}
+		paths := []string{"/x", "/x/y", "/x/y/z", "/x/y/z/w"}
+		for i, p := range paths {
+			ok = ok && ca.WalkTo(0, uint32(1+i), p)
+		}
+		if !ok {
+			find("setup", "setup", "setup failed")
+			return
+		}
+		var rm rc.Message = &rc.Tunlinkat{DirFid: 0, Name: "x"}
+		if overwrite {
+			rm = &rc.Trenameat{OldDirFid: 0, OldName: "other", NewDirFid: 0, NewName: "x"}
+		}
+		if rep := cb.RPC(rm); Errno(rep) != 0 {
+			find("setup", "remove", "%s failed: %s", rc.String(rm), rc.String(rep))
+			return
+		}
+		for i, p := range paths {
+			fid := uint32(1 + i)
+			mark := len(fs.Calls)
+			rep := ca.RPC(&rc.Twalk{Fid: fid, NewFid: 20, Names: []string{"child"}})
+			if Errno(rep) != ENOENT {
+				find("not-fenced", fmt.Sprintf("walk/depth%d", i), "after %s, a walk to a child from the fid on %s (%d levels below the removed entry) gives %s, want ENOENT", rc.String(rm), p, i, rc.String(rep))
+			}
+			rep2 := ca.RPC(&rc.Tmkdir{Dfid: fid, Name: "new", Mode: 0o755})
+			if Errno(rep2) != EINVAL {
+				find("not-fenced", fmt.Sprintf("mkdir/depth%d", i), "after %s, Tmkdir in the fid on %s (%d levels below the removed entry) gives %s, want EINVAL", rc.String(rm), p, i, rc.String(rep2))
+			}
+			for _, cl := range fs.Calls[mark:] {
+				if cl.Method != "Close" {
+					find("fenced-fid-reached-backend", fmt.Sprintf("depth%d", i), "after %s, a request through the fenced fid on %s reached the backend: %s", rc.String(rm), p, cl)
+					break
+				}
+			}
+		}
+		w.Shutdown()
+		rcx.Findings = append(rcx.Findings, w.Findings...)
+	})
+	finishRun(rcx)
+}
